@@ -12,6 +12,7 @@ declare -A CHECKS=(
  [C09]="C09" [C09b]="C09" [C09c]="C09" [C10]="C10" [C10b]="C10" [C10c]="C01" [C11]="C11" [C11b]="C12" [C11c]="C11"
  [C12]="C12" [C12b]="C12" [C13]="C13" [C13b]="C13" [C14]="C14" [C14b]="C14" [C15]="C15" [C15b]="C15"
  [C16]="C16" [C16b]="C16" [C04c]="C04" [C05c]="C05" [C14c]="C14" [C15c]="C15"
+ [C06c]="C06" [C07c]="C07" [C08c]="C08" [C16c]="C16"
  [C17]="C17 C16" [C17b]="C17" [C18]="C18" [C18b]="C18"
 )
 for id in $(ls seeded | sort); do
